@@ -37,7 +37,7 @@ var ErrNamingFormat = errors.New("不支持的命名样式")
 // 理论上甚至可以使用分隔符如 go#Designer，但还是要遵循操作系统的文件命名规范。
 // 注意：FileNamingFormat 基于蛇式或驼峰。
 func FileNamingFormat(format, content string) (string, error) {
-	upperFormat := strings.ToUpper(format)
+	upperFormat := upperASCII(format)
 	indexGo := strings.Index(upperFormat, flagGo)
 	indexDesigner := strings.Index(upperFormat, flagDesigner)
 	if indexGo < 0 || indexDesigner < 0 || indexGo > indexDesigner {
@@ -73,6 +73,17 @@ func FileNamingFormat(format, content string) (string, error) {
 	formatStyle.through = through
 	formatStyle.after = after
 	return doFormat(formatStyle, content)
+}
+
+// upperASCII 仅将 ASCII 小写字母转为大写，保持字节偏移与原字符串一致。
+func upperASCII(s string) string {
+	b := []byte(s)
+	for i, c := range b {
+		if c >= 'a' && c <= 'z' {
+			b[i] = c - 'a' + 'A'
+		}
+	}
+	return string(b)
 }
 
 func doFormat(format styleFormat, content string) (string, error) {
